@@ -25,7 +25,7 @@ lineno = st.sampled_from(["", "", "N1 ", "N25", "n7 ", "N007 "])
 code = st.sampled_from(["G1", "G0", "g1", "G 1", "G01", "M117", "M204", "T0", "T 1", "G38.2", "G92.1", "G38.0", "M428.0", "G1.0", "G0.00", "M 600", "G28", "G10", "m82", "M73"])
 params = st.one_of(
     st.sampled_from(["", " X1 Y2", "X1Y2", " X-1.5 E.5 F1200", " S255", " Hello world", " P1 \; not a comment", " X1  Y2 ", " .5", " 5", " E1e-5",
-                     " X", " ;", " \\\\", " X+.5Y-5.", "  text with * star"]),
+                     " X", " ;", " \\\\", " X+.5Y-5.", "  text with * star", "\t", " \t", "\x0c", "\xa0", " X1\t", "\t\t", " \x0b "]),
     st.text(alphabet="XYZEFS0123456789.-+ \\", max_size=12))
 checksum = st.sampled_from(["", "", "", "*0", "*71", "*255", " *12", "*", "* 7", "*  12", "* ", "*007", "**5"])
 trail = st.sampled_from(["", "", " ", "  "])
@@ -51,7 +51,28 @@ structured = st.lists(st.one_of(structured_line, structured_line, structured_lin
 
 
 def strategy(tier):
-    return st.one_of(free_text, structured, structured).map(lambda t: {"text": t})
+    # walk: how the caller steps through the text - parseLines(text); parse(text) then parse() per line; or the first k lines
+    # with parse() and the rest with parseLines() (resuming)
+    return st.tuples(st.one_of(free_text, structured, structured), st.sampled_from(["lines", "lines", "parse", "mixed"]), st.integers(1, 3)).map(
+        lambda t: {"text": t[0], "walk": t[1], "k": t[2]})
+
+
+def walk(parser, text, how, k):
+    """Yield the parser once per line, stepping through `text` the way `how` says."""
+    if how == "lines":
+        for line in parser.parseLines(text):
+            yield line
+        return
+    parser.parse(text)
+    n = 0
+    while parser.offset < len(text):
+        yield parser
+        n += 1
+        if how == "mixed" and n >= k:
+            for line in parser.parseLines():
+                yield line
+            return
+        parser.parse()
 
 
 def run_case(case, strict=False):  # pylint: disable=unused-argument,too-many-branches
@@ -68,7 +89,7 @@ def run_case(case, strict=False):  # pylint: disable=unused-argument,too-many-br
     marked = 0
     cl = set()
     try:
-        for line in parser.parseLines(text):
+        for line in walk(parser, text, case.get("walk", "lines"), case.get("k", 1)):
             nlines += 1
             pieces.append(line.fullText)
             total += line.length
@@ -87,6 +108,7 @@ def run_case(case, strict=False):  # pylint: disable=unused-argument,too-many-br
             bad("c18_consumed", "lines consume %d of %d characters of %r" % (total, len(text), text))
         if "".join(pieces) != text:
             bad("c18_lossless", "concatenated fullText %r differs from the input %r" % ("".join(pieces), text))
+    cl.add("walk_" + case.get("walk", "lines"))
     return out, {"nontrivial": nlines >= 2 and marked >= 1, "classes": sorted(cl)}
 
 
